@@ -66,7 +66,7 @@ func features() []feature {
 	}
 	return []feature{
 		{Name: "plain", Body: "    pass\n", Edits: []edit{{"change body", "    pass\n", "    y = 1\n"}}},
-		g("int1", "5", "6"), g("int2", "300", "301"), g("int2b", "256", "65536"), g("int4", "70000", "70001"), g("bigint", "2 << 70", "(2 << 70) + 1"),
+		g("int1", "5", "6"), g("int2", "300", "301"), g("int2b", "256", "65536"), g("int4", "70000", "70001"), g("int65536", "65536", "0"), g("int65535", "65535", "-1"), g("int2p31", "2147483648", "-2147483648"), g("bigint", "2 << 70", "(2 << 70) + 1"),
 		g("float", "1.5", "2.5"), g("str", "\"a\"", "\"b\""), g("bytes", "b\"a\"", "b\"b\""), g("tuple", "(1, 2)", "(1, 3)"), g("list", "[1, 2]", "[1, 3]"),
 		g("dict", "{\"k\": 1}", "{\"k\": 2}"), g("dictkey", "{\"k\": 1}", "{\"j\": 1}"), g("set", "set([1, 2])", "set([1, 3])"), g("nested", "{\"k\": [1, (2, 3)]}", "{\"k\": [1, (2, 4)]}"),
 		g("none-bool", "(None, True)", "(None, False)"),
